@@ -219,7 +219,9 @@ EML_NS = "https://eml.ecoinformatics.org/eml-2.2.0"
 # rule for, other vocabularies (with and without prefix), case variants, Clark notation
 FOREIGN_NAMES = ["verifUnknown", "span", "div", "font", "center", "small", "big", "b", "i", "p", "br", "a", "table", "tr", "td", "ul", "li",
                  "referencePublication", "usageCitation", "literatureCited", "Polygon", "gml:Polygon", "dc:title", "Title", "dataSet", "TITLE",
-                 "{https://eml.ecoinformatics.org/eml-2.2.0}title", "eml:dataset", "title ", " title", ""]
+                 "{https://eml.ecoinformatics.org/eml-2.2.0}title", "eml:dataset", "title ", " title", "",
+                 # spellings that earlier releases of the library (or of EML) used and that saved models may still carry
+                 "ackknowledgements", "acknowledgments", "dataSource", "researchProject", "triple", "additionalInfo2"]
 
 
 _UNMODELLED = []
